@@ -15,7 +15,8 @@
             changed = cells <<i, j>> of the caller's array that differ from a snapshot taken before the call
    "nj"     D; obs = [oc, leaves, dist, rootArity], tree (diagnostic), changed
    "session" D, kind (ArrayKinds), calls = <<[fn, obs, changed], ...>>: a history of calls of upgma /
-            neighbor_joining on one array object of that kind (obs as for "upgma" / "nj")
+            neighbor_joining on one array object of that kind (obs as for "upgma" / "nj"; every returned
+            tree is observed while the caller's array is overwritten with other numbers)
    "block"  B, grp (block matrix, see Phylo); obs = [oc, flat] with flat = the returned tree as list of
             <<kids, lens>> (Phylo!Flat), changed
 
